@@ -108,7 +108,7 @@ static Congruence rcg(Rng& r, dimension_type dim) {
 }
 static Grid_Generator rgg(Rng& r, dimension_type dim) {
   Linear_Expression e = rexpr(r, dim, 4, false);
-  int k = r.range(0, 3);
+  int k = dim == 0 ? 3 : r.range(0, 3);
   if (k == 0) { if (e.all_homogeneous_terms_are_zero()) e += Variable(0); return grid_line(e); }
   if (k == 1) return parameter(e, r.range(1, 3));
   return grid_point(e, r.range(1, 3));
